@@ -198,17 +198,22 @@ Definition or_port (a b : option N) : option N :=
 Definition is_absolute_dest (dest : url) : bool :=
   nonempty (u_scheme dest) && nonempty (u_host dest).        (* dest.scheme and dest.host *)
 
+(*  if (dest.host or self.host) and new_path_parts[:1] != ['']:
+        new_path_parts.insert(0, '')                                           *)
+Definition first_is_empty (parts : list str) : bool :=
+  match parts with p :: _ => is_nil p | [] => false end.
+
 Definition navigate_rel (self dest : url) : url :=
   let query_params := u_query dest in
   let dpath := path_text dest in
   let '(new_path_parts, query_params) :=
     if nonempty dpath then
       if starts_with [SL] dpath then (u_path dest, query_params)
-      else
-        let base_parts := removelast (u_path self) in               (* self.path_parts[:-1] *)
-        let base_parts := if nonempty (u_host self) && is_nil base_parts then [[]] else base_parts in
-        (base_parts ++ u_path dest, query_params)
+      else (removelast (u_path self) ++ u_path dest, query_params)     (* self.path_parts[:-1] + ... *)
     else (u_path self, if is_nil query_params then u_query self else query_params) in
+  let new_path_parts :=
+    if (nonempty (u_host dest) || nonempty (u_host self)) && negb (first_is_empty new_path_parts)
+    then [] :: new_path_parts else new_path_parts in
   normalize (from_parts (or_str (u_scheme dest) (u_scheme self))
                         (or_str (u_host dest) (u_host self))
                         new_path_parts query_params (u_frag dest)
